@@ -9,7 +9,8 @@ class SimFault extends Error {
   constructor () { super('SimFault'); this.name = 'SimFault' }
 }
 
-const KNOWN_CTX = new Set(['param-default:function', 'class-field:instance'])
+const NESTED_DEFAULT = 'param-default:function-expression-argument'
+const KNOWN_CTX = new Set(['param-default:function', 'class-field:instance', NESTED_DEFAULT])
 const TOKEN_RE = /<a(\d+)\.s(\d+)\.n(\d+)>/g
 
 class World {
@@ -55,6 +56,13 @@ class World {
       t: (v) => !!v || true,
       c: (act, site) => self.condProbe(act, site),
       n: (v) => v,
+      k: (act, site, fn) => {
+        // call the function expression back synchronously (fresh activation, default parameter used)
+        self.stat('fault:synchronous-callback')
+        self.depth++
+        try { self.guard(() => fn(self.nextAct++), 'callback argument') } finally { self.depth-- }
+        return self.probe(act, site)
+      },
       K: class K { constructor (v) { this.v = v } },
       tag: (strs, ...vals) => vals.join(''),
       reg: (name, fn, kind) => { self.callables.push({ name, fn, kind }); if (self.callables.length > self.limits.registry) self.callables.shift() },
@@ -263,6 +271,10 @@ class World {
     const victimLabel = cands.length ? cands[0].label : 'unknown'
     const describe = () => `hook ${name}(${operands.map(o => typeof o === 'string' ? o : String(o)).join(', ')})`
     const keyCtx = (intruderSite) => {
+      // a default of a function expression that sits *inside* the victim's own expression gets its
+      // temporaries from the same provider as the victim: the two never share a name on the pinned
+      // tree, so this intrusion is not the recorded shared-across-activations finding
+      if (intruderSite !== undefined && labelOf(intruderSite) === NESTED_DEFAULT && !KNOWN_CTX.has(victimLabel)) return victimLabel + '<-default-of-function-expression-argument'
       const labels = [victimLabel, ...cands.map(c => c.label)]
       if (intruderSite !== undefined) labels.push(labelOf(intruderSite))
       return labels.find(l => KNOWN_CTX.has(l)) || (intruderSite !== undefined ? labelOf(intruderSite) : victimLabel)
